@@ -28,7 +28,9 @@ class RunnerBasics(Harness):
     agreement_runs = 10
     bounds = {
         "quick": "(markets,agents,hft,steps) in {(1,2,0,2) limit orders, (1,2,0,1) limit+market+cancel, "
-                 "(1,1,1,1), (2,2,0,1), batch clearing after a 1-step no-execution session}",
+                 "(1,1,1,1), (2,2,0,1), batch clearing after a 1-step no-execution session} plus scripted families: "
+                 "HFT sweep of two resting orders, HFT batch of two items, cancels of filled/expired orders, two "
+                 "markets hit in any order with two items per consultation",
         "thorough": "adds (1,2,0,2) with market orders and cancels, (1,3,0,1), (1,2,1,2), (2,2,0,2)",
     }
 
@@ -44,6 +46,14 @@ class RunnerBasics(Harness):
             {"M": 2, "A": 2, "H": 0, "S": 1, "acts": L, "pre": 0, "cap": 2},
             {"M": 1, "A": 2, "H": 0, "S": 1, "acts": L, "pre": 1, "cap": 2},
             {"M": 1, "A": 1, "H": 0, "S": 2, "acts": LM, "pre": 0, "cap": 1},
+            # two resting sells from a no-execution step, then an HFT buyer sweeping them in its own branch
+            {"M": 1, "A": 2, "H": 1, "S": 1, "acts": L, "pre": 1, "cap": 2, "script": "hft-sweep"},
+            # an HFT batch of two items (order/cancel) with a fill after the first one
+            {"M": 1, "A": 1, "H": 1, "S": 1, "acts": L, "pre": 0, "cap": 1, "script": "hft-batch"},
+            # both agents trade at t=0, then cancel (filled / resting) orders at t=1
+            {"M": 1, "A": 2, "H": 0, "S": 2, "acts": L, "pre": 0, "cap": 2, "script": "cancel-filled"},
+            # two markets, agents free to hit them in any order (records must keep the global event order)
+            {"M": 2, "A": 2, "H": 0, "S": 1, "acts": L, "pre": 0, "cap": 2, "script": "two-markets"},
         ]
         if tier == "thorough":
             out += [
@@ -64,6 +74,22 @@ class RunnerBasics(Harness):
                                    maxHighFrequencyOrders=1))
         st = rn.base_settings(n_agents=case["A"], n_hft=case["H"], sessions=sessions, markets=markets)
         menu = {"acts": case["acts"], "ttl": case.get("ttl", [None])}
+        sc = case.get("script")
+        if sc == "hft-sweep":       # agents 0,1 normal (sell at t=0, may sell again at t=1), agent 2 HFT (buys at t=1)
+            menu = {"vol_hi": 3, "per_agent": {
+                "0": {"side": "S", "acts_by_time": {"0": ["limit"], "1": ["none", "limit"]}, "vol_fixed": 1},
+                "1": {"side": "S", "acts_by_time": {"0": ["limit"], "1": ["none"]}, "vol_fixed": 1},
+                "2": {"side": "B", "active": [1, 1], "acts": ["limit", "market"], "vol_hi": 3}}}
+        elif sc == "hft-batch":     # agent 0 normal sells, agent 1 HFT sends two items per consultation
+            menu = {"per_agent": {"0": {"side": "S", "acts": ["limit"], "vol_fixed": 1},
+                                  "1": {"side": "B", "acts": ["none", "limit", "cancel"], "max_orders": 2, "vol_fixed": 1}}}
+        elif sc == "cancel-filled":
+            menu = {"vol_fixed": 1, "per_agent": {
+                "0": {"side": "B", "acts_by_time": {"0": ["limit"], "1": ["none", "cancel"]}},
+                "1": {"side": "S", "acts_by_time": {"0": ["limit"], "1": ["none", "cancel"]}}}, "ttl": [None, 1]}
+        elif sc == "two-markets":
+            menu = {"vol_fixed": 1, "max_orders": 2, "acts": ["none", "limit"],
+                    "per_agent": {"0": {"side": "B"}, "1": {"side": "S"}}}
         mon = _Monitor(g, self.props)
         ctx = rn.make_run(g, st, menu, on_event=mon.on_event)
         mon.start(ctx)
@@ -288,13 +314,28 @@ class _Monitor:
         self.check_frames(proc)
 
     def _event_order(self):
-        """ground truth order of book events: from the write calls of the markets (first sight)."""
+        """ground truth order of book events: the order in which the parties were told (acceptance ->
+        submitted_order / canceled_order; fills -> executed_order, first delivery of each record); expiry
+        records have no callback: they belong to the clock advance to their time, i.e. after every event of
+        earlier times and before every event of that time."""
         seq = []
         for k, aid, p in self.ctx.events:
-            if k in ("log-write", "log-direct") and isinstance(p, (OrderLog, CancelLog, ExecutionLog, ExpirationLog)):
-                if not any(p is x for x in seq):
-                    seq.append(p)
-        return seq
+            if k in ("submitted", "canceled", "executed") and not any(p is x for x in seq):
+                seq.append(p)
+        exps = []
+        for k, aid, p in self.ctx.events:
+            if k in ("log-write", "log-direct") and isinstance(p, ExpirationLog) and not any(p is x for x in exps):
+                exps.append(p)
+
+        def tm(x):
+            return x.cancel_time if isinstance(x, CancelLog) else x.time
+        out = []
+        pending = list(exps)
+        for x in seq:
+            while pending and pending[0].time <= tm(x):
+                out.append(pending.pop(0))
+            out.append(x)
+        return out + pending
 
     def check_frames(self, proc):
         """begin/end records: simulation > sessions > market steps, nested and complete; step records are
